@@ -9,4 +9,5 @@ CONSTANTS
   KF_StaleFlags = FALSE
   KF_NoReloadMutex = TRUE
   DumpFile = ""
+  KF_PortFreedAfterDone = FALSE
   KF_MidEstablishLeak = FALSE
